@@ -38,7 +38,7 @@ package dns
 //@   loop 1 decreases len(s) - off
 //@   pure
 
-//@ func equal [C19 C20 C14]
+//@ func equal [C19 C20 C14 C10 C18]
 //@   ensures ret0 == (len(a) == len(b) && (forall k in 0..len(a) :: lower(a[k]) == lower(b[k])))
 //@   ensures leq: ret0 == labeq(a, 0, len(a), b, 0, len(b))
 //@   loop 1 invariant 0-1 <= i && i < la && la == len(a) && lb == len(b) && la == lb
